@@ -70,7 +70,7 @@ fn scenario(name: &str, n: i64) {
     BASE.with(|b| b.set(&marker as *const u8 as usize));
     let (kind, what) = name.split_once('-').unwrap_or((name, "drop"));
     match what {
-        "drop" | "clear" | "partial" | "full" | "query" => {
+        "drop" | "clear" | "partial" | "full" | "fullback" | "query" => {
             let mut t = SplayTree::new(cmp_key);
             for k in order(kind, n) {
                 t.insert(Key(k), ());
@@ -88,11 +88,21 @@ fn scenario(name: &str, n: i64) {
                     it.next();
                     drop(it);
                 }
+                "fullback" => {
+                    let mut c = 0usize;
+                    let mut it = t.into_iter();
+                    while it.next_back().is_some() {
+                        c += 1;
+                    }
+                    assert!(c > 0);
+                }
                 "full" => {
                     let mut c = 0usize;
                     let mut it = t.into_iter();
                     loop {
-                        let x = if c % 3 == 2 { it.next_back() } else { it.next() };
+                        // mixed direction is quadratic on a chain (each change of direction rotates the whole
+                        // spine), so large trees are consumed from one end with a few switches only
+                        let x = if (n <= 5000 && c % 3 == 2) || (c > 10 && c < 14) { it.next_back() } else { it.next() };
                         if x.is_none() {
                             break;
                         }
@@ -118,15 +128,15 @@ fn scenario(name: &str, n: i64) {
         }
         "sweep" => {
             // subject: a comb with n teeth; clipping: a small box left of the teeth's right ends, so that
-            // the intersection sweep breaks early with ~2n segments still in the sweep line
+            // the intersection sweep breaks early (at x = 10 > 3) with ~2n segments still in the sweep line
             let a = MultiPolygon(vec![comb(n as usize, 0.0)]);
             let b = MultiPolygon(vec![Polygon::new(
                 LineString(vec![
-                    Coord { x: -1.0, y: -1.0 },
-                    Coord { x: 0.5, y: -1.0 },
-                    Coord { x: 0.5, y: 1.0 },
-                    Coord { x: -1.0, y: 1.0 },
-                    Coord { x: -1.0, y: -1.0 },
+                    Coord { x: 2.0, y: -1.0 },
+                    Coord { x: 3.0, y: -1.0 },
+                    Coord { x: 3.0, y: 1.0 },
+                    Coord { x: 2.0, y: 1.0 },
+                    Coord { x: 2.0, y: -1.0 },
                 ]),
                 vec![],
             )]);
